@@ -401,7 +401,7 @@ func (x *Exec) identityOf(st *State, v Value) *Term {
 
 func modelErrorf(x *Exec, fr *Frame, st *State, pc *preparedCall, k func(*State, []Value)) {
 	e := Var(x.fresh("err"), SInt)
-	st.assumeRaw(Gt(e, IntLit(100000)))
+	st.assumeRaw(And(Gt(e, IntLit(100000)), Le(e, IntLit(1<<40))))
 	if f, ok := strLitOf(pc.args[0].(StrV)); ok {
 		// each %w operand is wrapped
 		wi := 0
@@ -436,13 +436,17 @@ func (x *Exec) wrapFacts(st *State, e, inner *Term) {
 
 func modelErrorsNew(x *Exec, fr *Frame, st *State, pc *preparedCall, k func(*State, []Value)) {
 	e := Var(x.fresh("err"), SInt)
-	st.assumeRaw(Gt(e, IntLit(100000)))
+	st.assumeRaw(And(Gt(e, IntLit(100000)), Le(e, IntLit(1<<40))))
 	ret1(st, k, OpaqueV{T: e, Type: types.Universe.Lookup("error").Type()})
 }
 
 func modelErrorsIs(x *Exec, fr *Frame, st *State, pc *preparedCall, k func(*State, []Value)) {
 	a := x.asTerm(pc.args[0])
 	b := x.asTerm(pc.args[1])
+	// errors produced by modelled I/O wrap none of the program's sentinels
+	for _, fe := range x.freshErrs {
+		st.assumeRaw(Not(App("wraps", SBool, fe, b)))
+	}
 	// nil never "is" a non-nil target
 	ret1(st, k, BoolV{Ite(Eq(a, IntLit(0)), Eq(b, IntLit(0)), errIs(a, b))})
 }
